@@ -357,6 +357,8 @@ class Check:
         self.violations.append(path)
 
     def known(self, text):
+        if text in self.known_hits:
+            return                       # one line per listed finding
         print(f"KNOWN-FINDING: property={self.prop} {text}", flush=True)
         self.known_hits.append(text)
 
